@@ -9,7 +9,7 @@ PROP = Property(
     coq_targets=["Extract/Extract_Config.vo"],
     engines=[Engine(name="config", c_srcs=["harness/config_drv.c"],
                     ml_srcs=["ocaml/gen/ConfigModel.ml", "ocaml/config_drv.ml"],
-                    gen=cfggen.gen_c16, wraps=WRAPS, n_quick=1200, n_thorough=60000, timeout=2400)],
+                    gen=cfggen.gen_c16, wraps=WRAPS, n_quick=4000, n_thorough=60000, timeout=2400)],
     trusted_base=["Coq 8.16.1 kernel + coqc (vm_compute; no native_compute)",
                   "extraction (ExtrOcamlBasic only, no Extract Constant) + OCaml 4.13.1",
                   "gen/regen.py constants (option bits, flags, defaults) compiled against the working tree",
